@@ -31,6 +31,7 @@ CHECKS = {
     "C15": ("single", "exploration", "every queue_send call is recorded on the announcer instance and matched, per destination and in order, with the decoded entries leaving the transport; bursts up to 40 entries and requests placed exactly at collector deadlines", "DESIGN.md §6 C15"),
     "C16": ("svc", "exploration", "requests arrive as datagrams (single, coalesced, duplicated, with undecodable tails, unicast and multicast) at a SimpleService that concurrently serves subscriptions and 50 ms cyclic notifications; every reply at the transport is compared with the decision chain of the property text. The schedule adds little here - each message is handled synchronously - which DESIGN.md says plainly", "DESIGN.md §6 C16"),
     "C17": ("svc", "exploration", "a SimpleService with an explicit and a cyclic eventgroup behind a real SD stack; rogue clients subscribe / stop / restart / let TTLs expire while values change and explicit rounds are requested inside the seeded resolver latency of pending rounds; datagrams are matched (bipartite) against initial / explicit / cyclic expectations, payloads against the value history, session ids per destination", "DESIGN.md §6 C17"),
+    "C18": ("stream", "fault_enumeration", "for nine short streams (valid, and with each kind of rejected header) every single cut position, every pair of cut positions, and EOF / reset at every byte position are enumerated completely; beyond that random streams of 0-8 messages with payloads up to 4096 bytes, random and all-1-byte chunkings, both SOMEIPHeader.read and SOMEIPReader; the reader's output is compared with datagram decoding and with the reference decoder", "DESIGN.md §6 C18"),
 }
 
 ENGINES = {
